@@ -9,12 +9,12 @@ CHECKS = {
          "every case of the finite spaces is executed on the real Compile / Evaluate / EvaluateAs* / patch entry points inside recover, in worker sub-processes with a 45 s no-progress watchdog, so a panic, a fatal runtime error or a non-terminating call is attributed to one case",
          "inputs outside the alphabets and pools are not covered; nil options / typed-nil elements / nil entries of the input slice are outside the domain as the property says"),
  "C02": ("2/C02", TECH + ": every name path, prefix and index spelling of the jsonformat tree of every resource of a schema-covering family (all 146 types, every field, each-choice covering)",
-         "every schema position (message type x field x list/choice shape x depth) is realised in a generated resource; every path of its JSON tree is evaluated in four spellings on the real Evaluate and compared, by pointer identity and in document order, with the elements jsonformat rendered there; foreign and proto-only names must fail with ErrInvalidField",
+         "every schema position (message type x field x list/choice shape x depth) is realised in a generated resource; every path of its JSON tree is evaluated in four spellings on the real Evaluate and compared, by pointer identity and in document order (and `<path>.value` of every primitive with its JSON value), with the elements jsonformat rendered there; foreign and proto-only names must fail with ErrInvalidField",
          "resources nested deeper than the depth bound and values outside the generator pools are not covered; jsonformat and the proto descriptors are trusted"),
  "C03": ("2/C03", TECH + ": programs (every node kind, every table function) x inputs x environment aliasing/capacity shapes; every name path of the schema-covering family x continuations; before/after fingerprints",
          "every (program, input, environment shape) of the finite product is evaluated on the real code; inputs, backing arrays (incl. sentinel-filled spare capacity), slice headers and the compiled expression tree are compared before/after, and every FHIR element of a result must be an input's own node",
          "reflect/unsafe observe private state; programs beyond the list and resources deeper than the depth bound are not covered"),
- "C04": ("1.4, 2/C04", "stateless model checking of the implementation: preemption-bounded DFS over all interleavings at instrumented scheduling points under a controlled cooperative scheduler; explicit enumeration of Compile and Evaluate call histories on the real API; TZ/clock enumeration; plus a labelled free-running -race sample",
+ "C04": ("1.4, 2/C04", "stateless model checking of the implementation: preemption-bounded DFS over all interleavings at instrumented scheduling points under a controlled cooperative scheduler; explicit enumeration of Compile and Evaluate call histories and of process-wide call histories (every rotation of a 171-call alphabet, one fresh process each) on the real API; TZ/clock enumeration; plus a labelled free-running -race sample",
          "for 13 scenarios of 2-3 threads sharing compiled expressions and resources every schedule with <= 1-2 (quick) / 2-3 (thorough) preemptions at the instrumented points (function entries, loop iterations, package-variable writes of the CURRENT tree, re-instrumented on every run) is executed to completion and each thread's observation is compared with its isolated observation; every Compile history (<=3/4 calls over 11) and Evaluate history (<=2/3 over 48) is executed and compared with the empty-history outcome and the initial observable state; now()/today()/timeOfDay() under 12 override instants and 4 process time zones",
          "scheduling points are at function-entry/loop/package-variable granularity: unsynchronised accesses inside a basic block are only seen by the free-running -race pass (a sample, never the deciding step); more than 3 threads / 3 preemptions are not explored; the bound completed is reported per scenario"),
  "C05": ("2/C05", TECH + ": all ordered pairs and triples of a typed value pool x 6 operators; all collection pairs up to a length bound",
@@ -49,7 +49,7 @@ CHECKS = {
          "the contract fold is hand-written from the statement; acceptance of variadic custom functions is left open (totality only)"),
  "C12": ("2/C12", TECH + ": one subject per message descriptor of a schema-covering resource family and per System value form x every type specifier x 3 namespace forms, vs a hand-written R4 parent table",
          "every (subject, type specifier) pair of the finite product is evaluated with the real `is` and `as`; the declared type of each subject comes from its schema position, not from the repository",
-         "R4 parent table is hand-written; quick uses the ancestor chain plus 42 fixed names for inner elements (thorough: the full name set)"),
+         "R4 parent table is hand-written"),
  "C13": ("2/C13", TECH + ": items (value pool + string grammar) x 8 targets x {toT, convertsToT} with relational laws",
          "complete enumeration of the item pool and the string grammar against the laws of the statement and a hand-written conversion table",
          "conversion table and per-string validity parsers are hand-written in the harness"),
